@@ -382,11 +382,15 @@ def handle_set(config, error, to_set):
                     error.append(f"Boolean symbol {sym.name} only accepts true/false values")
             elif sym.type == kconfiglib.HEX:
                 try:
+                    if isinstance(val, bool):
+                        raise ValueError
                     if not isinstance(val, int):
                         val = int(val, 16)  # input can be a decimal JSON value or a string of hex digits
                     sym.set_value(hex(val))
-                except ValueError:
+                except (ValueError, TypeError):
                     error.append(f"Hex symbol {sym.name} can accept a decimal integer or a string of hex digits, only")
+            elif sym.type == kconfiglib.STRING and not isinstance(val, str):
+                error.append(f"String symbol {sym.name} only accepts string values")
             elif sym.type == kconfiglib.FLOAT:
                 if not kconfiglib.is_float(str(val)):
                     error.append(f"Float symbol {sym.name} requires a valid float value")
